@@ -6,6 +6,14 @@ VERIF = os.path.dirname(os.path.dirname(os.path.abspath(__file__)))
 props = [json.loads(l) for l in open(os.path.join(VERIF, "properties.jsonl"))]
 
 CLAIMS = {
+ "C14": dict(
+  text="Gallina model of validateImportPath, name/file derivation (over the proved filepath model of C13) and the VM's import machinery; proved confinement of every file/name for every accepted spelling and every evaluation, start accounting for all programs, once/same-object, distinct globals arrays and write locality; refutation witnesses replayed on the implementation. Tied by extracted-model trace correspondence on three importer routes (local importer, recording wrapper, FSImporter over a recording fs.FS) and a sentinel / call-stack oracle.",
+  note="Parser-node acceptance is a checked hypothesis (every node of the real parser's AST must be accepted by the model on every run); operand stack not modelled beyond the body result; clones/symlinks out of scope.",
+  technique="Rocq invariant proofs over a fuel-indexed interpreter + extracted-model trace correspondence on three importer routes + sentinel/call-stack oracle", ref="DESIGN.md section 5 C14"),
+ "C08": dict(
+  text="Gallina model of typeconv.go/proxy.go including reflect assignability; proved for all unnamed types of any depth: From is total, From/To round trip, read-after-write of fields, exact argument delivery; refutation witnesses (named scalars, uint64, pointer-to-named, copy proxies ...) replayed on the implementation. Tied by extracted-model correspondence on reflect-built types to depth 3 with zero/nil/extreme values and a widening / read-back / argument oracle; every evaluation runs under recover so an escaped panic is observed directly.",
+  note="reflect is trusted and validated by the tie; inexact float conversions skipped; the inductive theorems exclude declared types, structs and interface{} (covered by exact correspondence).",
+  technique="Rocq induction on Go types + extracted-model correspondence on reflect-built types + widening/read-back/args oracle", ref="DESIGN.md section 5 C08"),
  "C15": dict(
   text="Gallina model of Equals/Compare/HashKey/contains/sorted/IsTruthy over ints (wrapping), floats (bit patterns), bytes, strings, bools, nil, byte_slices and nested lists/maps/sets. Proved for all values: == is reflexive off NaN; symmetric and transitive under explicit guards, with kernel-checked refutation witnesses for the unguarded statements (int/float rounding above 2^53); != is the negation; <,<=,>,>= form a total preorder consistent with == on every single type (int, float without NaN, byte, string, bool, lists of one type) with a refutation for mixed lists; set membership agrees with == under a guard (refuted across numeric types); sorted is a stable ordered permutation and idempotent; truthiness agrees with len. Tied by differential runs of the extracted model against object-API and script evaluation of the same operand tuples, plus algebraic oracles on the implementation alone.",
   note="Trusted: Coq kernel, extraction, harness, float bit-pattern conversion in the harness. Known findings: int/float equality is not transitive above 2^53; set membership is per-type.",
